@@ -210,7 +210,7 @@ def random_trace(rng, tid):
 def run(ctx):
     out = Outcome()
     q = ctx.quick
-    r = tlc.model_check(ctx.sub("mc"), "ContainerMC", mc_cfg(4 if q else 6, False), timeout=1800, heap="8g")
+    r = tlc.model_check(ctx.sub("mc"), "ContainerMC", mc_cfg(4 if q else 6, False), timeout=3600, heap="8g", workers=1)   # strict BFS: the VIEW hides the depth
     out.add_tlc(r)
     d = tlc.dump_edges(ctx.sub("dump"), "ContainerMC", mc_cfg(2 if q else 3, True, props=False), marker="STATE", timeout=1800)
     paths = d["edges"]
